@@ -302,6 +302,15 @@ def _for_nest(f):
         if c.get("kind") == "BinaryOperator" and c.get("opcode") == "<":
             if ref_name(c["inner"][0]) == var:
                 bound = c["inner"][1]
+        elif c.get("kind") == "BinaryOperator" and c.get("opcode") == ">":
+            if ref_name(c["inner"][1]) == var:          # `bound > i` is `i < bound`
+                bound = c["inner"][0]
+        elif c.get("kind") == "BinaryOperator" and c.get("opcode") == "!=":
+            # `i != bound` with i counting up from 0 by one stops at the same place
+            if ref_name(c["inner"][0]) == var:
+                bound = c["inner"][1]
+            elif ref_name(c["inner"][1]) == var:
+                bound = c["inner"][0]
         incs = [ref_name(x["inner"][0]) for x in walk(inc) if x.get("kind") == "UnaryOperator"
                 and x.get("opcode") in ("++",)]
         chain.append({"var": var, "bound": bound, "incs": incs, "body": body, "node": cur})
